@@ -8,9 +8,12 @@ Pb match_bytes (<= 3 consecutive .byte lines with <= 4 parameters each, all byte
 P  find_marked_kernel_x86ATT / _AArch64: marker constants = the documented ones; reduce_to_section (-1 -> whole range)
 L  transparency: the non-instruction instances of the C01/C03 contracts (zero pressure vector, throughput 0, latency 0,
    no operands, neither read nor written, yields nothing) are units of this check
+P  assign_optimal_throughput: one balancing-loop iteration on a line without micro-ops leaves every loop-carried local and the line unchanged
 B  end-to-end on the real inspect: marked file vs --lines vs extracted-only file vs noise-line insertion give identical
    per-instruction and summary numbers; --lines expansion; decoy markers (bounded/c11_select.py)
 """
+import ast
+from fractions import Fraction
 import z3
 
 from pyvc.engine import Engine, PathEnd
@@ -547,6 +550,100 @@ def inspect_selection_unit(res):
     return res
 
 
+def balancing_noise_unit(res):
+    """assign_optimal_throughput: one iteration of the balancing loop on a line that carries no micro-ops (what assign_tp_lt gives a
+    comment / label / directive line: port_uops == [], see C11/transparency/assign_tp_lt) is the identity on everything the loop
+    carries from one line to the next - the locals (whether alternatives were seen, the best alternative so far, ...) and the line
+    itself; no other function is called.  Together with the totals ignoring such a line (C01: throughput 0.0 / zero vector) an
+    inserted non-instruction line cannot change what the step computes for the instruction lines."""
+    from .c01 import sem_engine, new_iform
+    ex = sem_engine()
+    fn, _ = ex.find_method("ArchSemantics", "assign_optimal_throughput")
+    loops = ex.index_loops(fn)
+    state = {}
+
+    class Kernel:
+        """the kernel list: only its use as the loop's sequence matters here"""
+        def sym_method(self, ex_, name, a, kw):
+            if name == "reverse":
+                return None
+            raise Unsupported("kernel." + name)
+
+        def sym_getslice(self, ex_, lo, hi, step):
+            return self
+
+        def sym_getitem(self, ex_, i):
+            raise Unsupported("kernel[i] on a line without micro-ops")
+
+    class Ghost:
+        """a value of a carried local that the contract knows nothing about"""
+        def __init__(self, name):
+            self.name = name
+
+    class Hook:
+        def sym_for(self, ex_, s_, it, env, cls):
+            body_mods = [m for m in ex_.modified_names(s_.body)]
+            tnames = {n.id for n in ast.walk(s_.target) if isinstance(n, ast.Name)}
+            carried = [m for m in body_mods if m not in tnames]
+            # arbitrary loop-carried state: every local the body may rebind gets an unknown value
+            before = {}
+            for m in carried:
+                cur = env.get(m)
+                if isinstance(cur, (bool, SBool)):
+                    before[m] = SBool(z3.FreshBool(m))
+                elif isinstance(cur, (int, SNum, Fraction)) and not isinstance(cur, bool):
+                    before[m] = SNum(z3.FreshReal(m), False)
+                else:
+                    before[m] = Ghost(m)
+                env[m] = before[m]
+            line = new_iform(ex_, mnemonic=None, operands=[])
+            line.fields["_port_uops"] = []
+            PP = SymSeq(z3.Int("P"), lambda i: SNum(z3.RealVal(0), False))
+            line.fields["_port_pressure"] = PP
+            snapshot = dict(line.fields)
+            ex_.assign(s_.target, (SNum(z3.Int("idx"), True), line), env, cls)
+            state["iterations"] = state.get("iterations", 0) + 1
+            try:
+                ex_.exec_block(s_.body, env, cls)
+            except (BreakEx, ContinueEx):
+                pass
+            g = []
+            for m in carried:
+                a, b = before[m], env.get(m)
+                if isinstance(a, SBool):
+                    g.append(ex_.eq_term(a, b) if isinstance(b, (bool, SBool)) else z3.BoolVal(False))
+                elif isinstance(a, SNum):
+                    g.append(ex_.eq_term(a, b) if isinstance(b, (SNum, int, Fraction)) else z3.BoolVal(False))
+                else:
+                    g.append(z3.BoolVal(a is b))
+                ex_.oblige("carried-local-unchanged[%s]" % m, g[-1])
+            ex_.oblige("line-unchanged", z3.BoolVal(all(line.fields.get(k) is v or line.fields.get(k) == v for k, v in snapshot.items()) and set(line.fields) == set(snapshot)))
+            raise PathEnd()
+
+    if len(loops) < 1 or not isinstance(loops[0], ast.For):
+        raise Unsupported("assign_optimal_throughput: outer balancing loop not found")
+    ex.loop_hooks[("assign_optimal_throughput", 0)] = Hook()
+    calls = []
+
+    def tsum(ex_, so, a, kw):
+        calls.append("get_throughput_sum")
+        return SymSeq(z3.Int("P"), lambda i: SNum(z3.Real("ts"), False))
+
+    ex.abstract["get_throughput_sum"] = tsum
+
+    def run():
+        P = z3.Int("P")
+        ports = SymSeq(P, lambda i: StrId(z3.Select(z3.Array("pl", I, I), i)))
+        mm = SObj("MachineModel", _data={"ports": ports, "isa": "aarch64"})
+        sem = SObj("ArchSemantics", _machine_model=mm, _isa="aarch64", _parser=SObj("ParserAArch64"))
+        ex.call_method("ArchSemantics", "assign_optimal_throughput", sem, [Kernel()])
+
+    paths = ex.explore(run, [z3.Int("P") >= 1])
+    res.add_paths(paths, None, kind="returns")
+    res.add("loop-body-reached", [], state.get("iterations", 0) >= 1 and sum(len(p.obligations) for p in paths) >= 2)
+    return res
+
+
 def _doubling():
     from .c05 import doubling_unit
     return doubling_unit
@@ -571,6 +668,7 @@ def units(tier):
         Unit("C11/match_bytes", match_bytes_unit, "Pb", [(MU, "match_bytes")]),
         Unit("C11/marker-constants+reduce_to_section", constants_unit, "P", [(MU, "find_marked_kernel_x86ATT"), (MU, "find_marked_kernel_AArch64"), (MU, "reduce_to_section")]),
         Unit("C11/transparency/assign_tp_lt(no mnemonic)", tp_lt_trivial_unit, "P", [(AS, "ArchSemantics.assign_tp_lt")]),
+        Unit("C11/transparency/assign_optimal_throughput(a line without micro-ops leaves the balancing state unchanged)", balancing_noise_unit, "P", [(AS, "ArchSemantics.assign_optimal_throughput")]),
         Unit("C11/line-numbers-are-only-labels/LCD-doubling(symbolic line numbers)", _doubling(), "Pb", [("osaca/semantics/kernel_dg.py", "KernelDG.check_for_loopcarried_dep")]),
         Unit("C11/line-numbers-are-only-labels/LCD-doubling(any kernel length, arbitrary positive line numbers)", _doubling_any(), "P", [("osaca/semantics/kernel_dg.py", "KernelDG.check_for_loopcarried_dep")]),
         Unit("C11/line-numbers-are-only-labels/_get_node_by_lineno", _node_by_lineno(), "P", [("osaca/semantics/kernel_dg.py", "KernelDG._get_node_by_lineno")]),
